@@ -179,6 +179,11 @@ CHECKS["C05"] = {
          "extra_overlay": {"internal/response/zz_verif_decode.go": "internal/response/zz_verif_decode.go"},
          "params": {"quick": grid(k=[3], c05only=[1]), "thorough": grid(k=[3], c05only=[1])},
          "cover": ["held-back", "own-search"]},
+        {"name": "wire", "pkg": "internal/session", "pkgname": "session", "entry": "VerifC01Wire", "files": ["zz_verif_c18.go", "zz_verif_c18b.go", "zz_verif_c01.go", "zz_verif_c01idle.go", "zz_verif_c01idle2.go", "zz_verif_c01wire.go"],
+         "with": ["state_export", "backend_export", "verifdb"], "goroutines": True, "concrete_time": True, "replay_timeout_s": 90,
+         "extra_overlay": {"internal/response/zz_verif_decode.go": "internal/response/zz_verif_decode.go"},
+         "params": {"quick": grid(k=[1, 2]), "thorough": grid(k=[3])},
+         "cover": ["wire-probed", "wire-fresh-compared"]},
     ],
     "stubs": CHECKS["C01"]["stubs"],
     "outside": ["the [EXPUNGEISSUED] response code rendering (that the handlers put the item into their OK is part of C01's session harness)", "histories longer than k"],
